@@ -131,9 +131,9 @@ Proof. exact (enc_envelope_safe U hc cenc). Qed.
 Theorem C13_encode_nil_fields :
   (forall r, enc_PongMessage None r = MErr MERecovered) /\
   w_enc (M_TypedNil K_Ping) = MErr MERecovered /\
-  (forall u id e, enc_body wU false w_cenc (M_PipeResult id (M_Outside u) e) = MErr MENoCodec) /\
+  (forall u ref, enc_body wU false w_cenc (M_Scheduler ref (M_Outside u)) = MErr MENoCodec) /\
   perr_wire PETypedNil = MErr MERecovered.
-Proof. exact (conj (fun _ => eq_refl) (conj eq_refl (conj (fun u id e => eq_refl) eq_refl))). Qed.
+Proof. exact (conj (fun _ => eq_refl) (conj eq_refl (conj (fun u ref => eq_refl) eq_refl))). Qed.
 
 (** * a failed decode leaves the caller's values untouched *)
 (** Handshake.Wait decodes into its receiver: after a failure the address is the old one *)
@@ -147,6 +147,15 @@ Theorem C13_no_clobber_result U hc cdec qerr newref k bs :
   (exists m rest, drun (deserialize_remoting U hc cdec qerr newref k) bs = MOk (m, rest)) \/
   (exists e, drun (deserialize_remoting U hc cdec qerr newref k) bs = MErr e).
 Proof. exact (match drun (deserialize_remoting U hc cdec qerr newref k) bs as r return (exists m rest, r = MOk (m, rest)) \/ (exists e, r = MErr e) with MOk (m, rest) => or_introl (ex_intro _ m (ex_intro _ rest eq_refl)) | MErr e => or_intror (ex_intro _ e eq_refl) end). Qed.
+
+(** a failed decode does not poison the next one: immediate in the functional model (a decode is a
+    function of its input); the real decoders draw Readers from a sync.Pool, and that a failed decode
+    leaves no sticky error / position / buffer behind is DECIDED ON THE IMPLEMENTATION by the harness's
+    decode histories (monitor decode-after-failed-decode) *)
+Theorem C13_decode_history_independent U hc cdec qerr newref (pre : list bytes) (bs : bytes) d :
+  List.last (map (fun b => drun (read_message U hc cdec qerr newref) b) (pre ++ [bs])) d =
+  drun (read_message U hc cdec qerr newref) bs.
+Proof. exact (last_of_history (fun b => drun (read_message U hc cdec qerr newref) b) pre bs d). Qed.
 
 (** * non-vacuity *)
 Example C13_ex_codec_total :
@@ -181,3 +190,4 @@ Print Assumptions C13_encode_total_envelope.
 Print Assumptions C13_encode_nil_fields.
 Print Assumptions C13_no_clobber_handshake.
 Print Assumptions C13_no_clobber_result.
+Print Assumptions C13_decode_history_independent.
